@@ -164,7 +164,7 @@ def StepIn (tbl : List OptSpec) : Step → Prop
   | _ => True
 
 def PendIn (tbl : List OptSpec) : Pend → Prop
-  | .one sp => sp ∈ tbl
+  | .one pre sp => sp ∈ tbl ∧ ∀ st ∈ pre, StepIn tbl st
   | .star sp _ => sp ∈ tbl
   | .posDash p => p ∈ tbl
   | _ => True
@@ -281,10 +281,19 @@ theorem chain_mem {tbl : List OptSpec} : ∀ (e : List Char) (sp : OptSpec) (fla
       · refine ⟨?_, by simp⟩
         intro st hst; simp only [List.mem_singleton] at hst; subst hst; trivial
 
-theorem pendOf_mem {tbl : List OptSpec} {sp : OptSpec} (hs : sp ∈ tbl) :
-    (∀ st ∈ (pendOf sp).1, StepIn tbl st) ∧ PendIn tbl (pendOf sp).2 := by
+theorem pendOf_mem {tbl : List OptSpec} {sp : OptSpec} (hs : sp ∈ tbl) {pre : List Step}
+    (hpre : ∀ st ∈ pre, StepIn tbl st) :
+    (∀ st ∈ (pendOf pre sp).1, StepIn tbl st) ∧ PendIn tbl (pendOf pre sp).2 := by
   unfold pendOf
-  cases sp.nargs <;> simp [StepIn, PendIn, hs]
+  cases sp.nargs
+  · refine ⟨?_, trivial⟩
+    intro st hst
+    rcases List.mem_append.1 hst with h | h
+    · exact hpre st h
+    · simp only [List.mem_singleton] at h; subst h; exact hs
+  · exact ⟨(by intro st h; cases h), hs, hpre⟩
+  · exact ⟨(by intro st h; cases h), hs, hpre⟩
+  · exact ⟨hpre, hs⟩
 
 theorem flush_mem {tbl : List OptSpec} {pend : Pend} (hpend : PendIn tbl pend) :
     ∀ st ∈ (match pend with | Pend.star sp acc => [Step.act sp acc] | _ => ([] : List Step)), StepIn tbl st := by
@@ -295,6 +304,7 @@ theorem flush_mem {tbl : List OptSpec} {pend : Pend} (hpend : PendIn tbl pend) :
 theorem sched_mem {tbl : List OptSpec} (pos : Option OptSpec) (pend : Pend) (toks : List Tok) :
     (∀ p, pos = some p → p ∈ tbl) → PendIn tbl pend → (∀ t ∈ toks, TokIn tbl t) →
     ∀ st ∈ sched tbl pos pend toks, StepIn tbl st := by
+  have hnil : ∀ st ∈ ([] : List Step), StepIn tbl st := by intro st h; cases h
   fun_induction sched tbl pos pend toks
   all_goals intro hpos hpend htoks
   all_goals try simp only [List.forall_mem_cons] at htoks
@@ -306,16 +316,18 @@ theorem sched_mem {tbl : List OptSpec} (pos : Option OptSpec) (pend : Pend) (tok
     | trivial
     | exact hpos _ rfl
     | exact hpend
+    | exact hpend.1
+    | exact hpend.2
     | exact htoks.1
-    | exact (pendOf_mem htoks.1).1
+    | exact (pendOf_mem htoks.1 hnil).1
     | (intro x hx; split at hx <;> simp at hx; subst hx; exact hpos _ rfl)
-    | exact (chain_mem _ _ _ [] htoks.1 (by intro st h; cases h)).1
-    | exact (pendOf_mem ((chain_mem _ _ _ [] htoks.1 (by intro st h; cases h)).2 _ (by assumption))).1
+    | exact (chain_mem _ _ _ [] htoks.1 hnil).1
+    | exact (pendOf_mem ((chain_mem _ _ _ [] htoks.1 hnil).2 _ (by assumption)) (chain_mem _ _ _ [] htoks.1 hnil).1).1
     | (apply_assumption
        · first | exact hpos | (intro p h; cases h)
        · first
-         | trivial | exact hpend | exact hpos _ rfl | exact (pendOf_mem htoks.1).2
-         | exact (pendOf_mem ((chain_mem _ _ _ [] htoks.1 (by intro st h; cases h)).2 _ (by assumption))).2
+         | trivial | exact hpend | exact hpos _ rfl | exact (pendOf_mem htoks.1 hnil).2
+         | exact (pendOf_mem ((chain_mem _ _ _ [] htoks.1 hnil).2 _ (by assumption)) (chain_mem _ _ _ [] htoks.1 hnil).1).2
        · exact htoks.2)
     | trace_state
 
